@@ -17,6 +17,7 @@ import copy
 import json
 import os
 import random
+import re
 import sys
 import time
 
@@ -126,10 +127,23 @@ def canon(v, depth=0):
     return "<%s>" % type(v).__name__
 
 
+def _fp(v, exact):
+    """fingerprint of a value: canonical JSON when values are compared across processes (exact),
+    otherwise a pickle (C speed; equal for an unchanged object inside one process)"""
+    if not exact:
+        import pickle
+        try:
+            return pickle.dumps(v, protocol=4)
+        except Exception:
+            pass
+    return json.dumps(canon(v), sort_keys=True, default=str)
+
+
 def snapshot(tracked=None):
     """Fingerprint of every module-level (and class-level) data attribute of every loaded module
     that lives under the GASOL checkout."""
     import types
+    exact = tracked is not None
     root = os.path.realpath(common.REPO) + os.sep
     snap = {}
     for mname, mod in list(sys.modules.items()):
@@ -149,13 +163,13 @@ def snapshot(tracked=None):
                         continue
                     nm = "%s.%s.%s" % (mname, k, ck)
                     if tracked is None or nm in tracked:
-                        snap[nm] = json.dumps(canon(cv), sort_keys=True, default=str)
+                        snap[nm] = _fp(cv, exact)
                 continue
             if getattr(v, "__module__", None) == "typing" or type(v).__module__ == "typing":
                 continue
             nm = "%s.%s" % (mname, k)
             if tracked is None or nm in tracked:
-                snap[nm] = json.dumps(canon(v), sort_keys=True, default=str)
+                snap[nm] = _fp(v, exact)
     return snap
 
 
@@ -337,17 +351,27 @@ def _baseline(opts, idxs, timeout):
 
 
 def minimize_history(opts, h, target, base_r, timeout):
-    """Shrink a failing history (greedy deletion of earlier blocks), keeps `target` last."""
+    """Shrink a failing history with bounded effort: first every single earlier block on its own,
+    then at most three rounds of greedy deletion. Keeps `target` last."""
     cur = list(h)
-    changed = True
-    while changed and len(cur) > 1:
-        changed = False
-        cands = [cur[:k] + cur[k + 1:] for k in range(len(cur))]
+    singles = sorted(set(cur))[:60]
+    rs = fresh_map([{"h": [c, target]} for c in singles], opts, timeout)
+    for c, (st, v) in zip(singles, rs):
+        if st == "ok" and v["steps"][-1]["r"] != base_r:
+            return [c]
+    for _ in range(3):
+        if len(cur) <= 1:
+            break
+        cands = [cur[:k] + cur[k + 1:] for k in range(len(cur))][:40]
         rs = fresh_map([{"h": c + [target]} for c in cands], opts, timeout)
+        nxt = None
         for c, (st, v) in zip(cands, rs):
             if st == "ok" and v["steps"][-1]["r"] != base_r:
-                cur, changed = c, True
+                nxt = c
                 break
+        if nxt is None:
+            break
+        cur = nxt
     return cur
 
 
@@ -357,7 +381,7 @@ def report_history(run, oname, opts, h, target, base_r, got_r, extra=None):
     hmin = minimize_history(opts, h, target, base_r, 120) if h else h
     key = {"kind": "history-dependence", "options": oname, "component": comp,
            "target_generated": hasattr(_BLOCKS[target], "verif_text"),
-           "first_history_block": _BLOCKS[hmin[0]].block_name if hmin else None}
+           "first_difference_path": re.sub(r"[A-Za-z0-9_]*_block_?\d+(_\d+)?", "<block>", d[0]) if d else None}
     if extra:
         key.update(extra)
     replay = {"options": opts, "history": [block_desc(_BLOCKS[i]) for i in hmin], "target": block_desc(_BLOCKS[target]),
@@ -403,7 +427,7 @@ def check(run):
     import gasol_asm  # noqa
     import greedy.block_generation  # noqa
     cb = contract_blocks()
-    gb = generated_blocks(rng, 40 if quick else 300)
+    gb = generated_blocks(rng, 40 if quick else 200)
     _BLOCKS = cb + gb
     # corpus histories first
     corpus = []
@@ -425,7 +449,7 @@ def check(run):
     run.log("blocks: %d from contract, %d generated, %d corpus" % (len(cb), len(gb), N - len(cb) - len(gb)))
 
     onames = list(OPTION_SETS)
-    n_hist = 6 if quick else 40
+    n_hist = 5 if quick else 30
     hist_len = 25 if quick else 60
     evaluations, distinct, fp_checked, fp_bad = 0, set(), 0, {}
     dist = {"options": {}, "history_len": {}, "changed_names": {}, "result_kinds": {}}
@@ -435,7 +459,8 @@ def check(run):
     for oname in onames:
         opts = OPTION_SETS[oname]
         t0 = time.time()
-        idxs = list(range(N))
+        # thorough: every block has a baseline; quick: a sample (histories draw from it)
+        idxs = list(range(N)) if not quick else sorted(set(rng.sample(range(len(cb)), min(len(cb), 25))) | set(rng.sample(range(len(cb), N), min(N - len(cb), 15))))
         base = _baseline(opts, idxs, 60)
         bad_base = [i for i in idxs if "status" in base[i]]
         usable = [i for i in idxs if "status" not in base[i]]
@@ -453,36 +478,50 @@ def check(run):
             L = rng.choice([2, 5, hist_len // 2, hist_len])
             h = [rng.choice(usable) for _ in range(L)]
             if k % 3 == 0:
-                # position permutation inside the contract: a shuffled run of consecutive contract blocks
-                s = rng.randrange(0, max(1, len(cb) - L))
-                h = [i for i in range(s, min(len(cb), s + L)) if i in usable]
+                # position permutation inside the contract: contract blocks in a shuffled order
+                h = [i for i in usable if i < len(cb)]
                 rng.shuffle(h)
+                h = h[:L]
             items.append({"h": h, "snap": (k % 3 == 1)})
         # the contract in its original order (position within a contract)
-        items.append({"h": [i for i in range(len(cb)) if i in usable], "snap": not quick})
+        items.append({"h": [i for i in range(len(cb)) if "status" not in base.get(i, {})],
+                      "snap": not quick or oname in ("default", "storage")})
+        run.log("  %s: baseline of %d blocks done" % (oname, len(idxs)))
         rs = fresh_map(items, opts, 600)
+        run.log("  %s: %d histories done" % (oname, len(items)))
+        failing, n_fail = {}, [0]
         for it, (st, v) in zip(items, rs):
             if st != "ok":
                 run.notes.append("history %s under %s: %s %s" % (it["h"][:5], oname, st, str(v)[:100]))
                 continue
             dist["history_len"][len(it["h"])] = dist["history_len"].get(len(it["h"]), 0) + 1
             for pos, step in enumerate(v["steps"]):
-                evaluations += 1
                 i = step["i"]
-                if pos > 0:
+                if i in base:
+                    evaluations += 1
+                if pos > 0 and i in base:
                     distinct.add((oname, i, tuple(it["h"][max(0, pos - 3):pos])))
-                if step["r"] != base[i]:
+                if i in base and step["r"] != base[i]:
                     found_violation = True
-                    report_history(run, oname, opts, it["h"][:pos], i, base[i], step["r"])
+                    d0 = first_diff(base[i], step["r"])
+                    comp0 = d0[0].split("/")[1] if d0 and len(d0[0]) > 1 else "?"
+                    cur0 = failing.get(comp0)
+                    if cur0 is None or pos < len(cur0[0]):
+                        failing[comp0] = (it["h"][:pos], i, step["r"])
+                    n_fail[0] += 1
                 if "changed" in step:
                     fp_checked += 1
                     for nm in step["changed"]:
                         dist["changed_names"][nm] = dist["changed_names"].get(nm, 0) + 1
                         if W and nm not in W:
                             fp_bad.setdefault(nm, (oname, block_text(_BLOCKS[i])))
+        for comp0, (hp, i, got) in sorted(failing.items())[:2]:
+            report_history(run, oname, opts, hp, i, base[i], got)
+        if n_fail[0]:
+            run.log("  %s: %d history positions with a differing result (reported: one per component)" % (oname, n_fail[0]))
         # pair search on the names of interest
-        if interesting:
-            sample = usable if not quick else rng.sample(usable, min(len(usable), 60))
+        if interesting and (not quick or oname in ("default", "storage", "partition")):
+            sample = rng.sample(usable, min(len(usable), 24 if quick else 100))
             its = [{"h": [i], "snap": True, "tracked": interesting} for i in sample]
             rs = fresh_map(its, opts, 60)
             reps = {}   # name -> {value: block index}
@@ -491,12 +530,15 @@ def check(run):
                     continue
                 for nm, val in v["final"].items():
                     reps.setdefault(nm, {})
-                    if val not in reps[nm] and len(reps[nm]) < (4 if quick else 8):
+                    if val not in reps[nm] and len(reps[nm]) < (2 if quick else 3):
                         reps[nm][val] = i
             hs = sorted({i for d in reps.values() for i in d.values()})
-            targets = rng.sample(usable, min(len(usable), 25 if quick else 120))
+            hs = hs[:10] if quick else hs[:15]
+            targets = rng.sample(usable, min(len(usable), 6 if quick else 20))
             pitems = [{"h": [h, t]} for h in hs for t in targets]
+            run.log("  %s: %d singles done, %d pairs to run" % (oname, len(its), len(pitems)))
             rs = fresh_map(pitems, opts, 60)
+            pair_fail = 0
             for it, (st, v) in zip(pitems, rs):
                 if st != "ok":
                     continue
@@ -505,9 +547,11 @@ def check(run):
                 distinct.add((oname, t, (h,)))
                 if v["steps"][1]["r"] != base[t]:
                     found_violation = True
-                    names = [nm for nm, d in reps.items() if h in d.values()]
-                    report_history(run, oname, opts, [h], t, base[t], v["steps"][1]["r"],
-                                   extra={"names_distinguished_by_history": names[:6]})
+                    pair_fail += 1
+                    if pair_fail == 1 and not failing:
+                        names = [nm for nm, d in reps.items() if h in d.values()]
+                        report_history(run, oname, opts, [h], t, base[t], v["steps"][1]["r"],
+                                       extra={"names_distinguished_by_history": names[:6]})
             pair_stats[oname] = {"names_with_several_values": sorted(nm for nm, d in reps.items() if len(d) > 1),
                                  "history_representatives": len(hs), "targets": len(targets)}
         dist["options"][oname] = {"blocks": len(usable), "unusable_alone": len(bad_base),
